@@ -136,7 +136,14 @@ fn set_lopt(o: &mut LexerOpts, k: &str, v: &Option<String>) {
         "case_insensitive" => o.case_insensitive = b(v),
         "dot_matches_new_line" => o.dot_matches_new_line = b(v),
         "warnings_are_errors" => o.warnings_are_errors = b(v),
-        _ => {}
+        _ => match v {
+            Some(v) => {
+                o.extra.insert(k.to_string(), v.clone());
+            }
+            None => {
+                o.extra.remove(k);
+            }
+        },
     }
 }
 
@@ -199,6 +206,7 @@ pub fn execute(exe: &Path, sc: &BScenario, dir: &Path) -> BReport {
         case_insensitive: Some(false),
         dot_matches_new_line: Some(false),
         warnings_are_errors: Some(false),
+        extra: Default::default(),
     };
     let mut flow = "combined".to_string();
     // model
@@ -406,7 +414,10 @@ pub fn execute(exe: &Path, sc: &BScenario, dir: &Path) -> BReport {
                             // the parser half succeeded for the current configuration
                             prov_y = Some(key_y.clone());
                         }
-                        let lexer_failed_first = flow == "combined" && BROKEN_LEXERS.iter().any(|(n, _)| *n == lname);
+                        // the lexer source is read and compiled before the parser builder runs: a
+                        // broken .l file, or a valid one whose regexes do not compile under the
+                        // current limits (the error then names the lexer source)
+                        let lexer_failed_first = flow == "combined" && (BROKEN_LEXERS.iter().any(|(n, _)| *n == lname) || (err.contains("/src/g.l") && !err.contains("/src/g.y")));
                         if let (Some(p), true) = (&prov_y, after_y.0.is_some()) {
                             if *p != key_y {
                                 *rep.probes.entry("stale_parser_output_after_failing_build").or_insert(0) += 1;
@@ -467,6 +478,16 @@ const LOPT_POOL: &[(&str, &[&str])] = &[
     ("case_insensitive", &["true", "false"]),
     ("dot_matches_new_line", &["true", "false"]),
     ("warnings_are_errors", &["true", "false"]),
+    ("allow_wholeline_comments", &["true", "false"]),
+    ("multi_line", &["true", "false"]),
+    ("posix_escapes", &["true", "false"]),
+    ("octal", &["true", "false"]),
+    ("swap_greed", &["true", "false"]),
+    ("ignore_whitespace", &["true", "false"]),
+    ("unicode", &["true", "false"]),
+    ("size_limit", &["64", "1048576", "10485760"]),
+    ("dfa_size_limit", &["1048576", "2097152"]),
+    ("nest_limit", &["2", "25", "250"]),
 ];
 
 pub fn generate(r: &mut Rng, max_ops: usize) -> BScenario {
@@ -808,7 +829,7 @@ pub fn check_main(tier: &str) -> i32 {
         seed,
         evaluations: count,
         distinct_nontrivial: t.digests.len() as u64,
-        rule: format!("history i of stream VERIF_SEED: <= {max_ops} operations from {{edit grammar (7 valid, 4 invalid variants, with/without %grmtools header), edit lexer (5 valid, 3 invalid), set a parser option (9 keys), set a lexer option (8 keys), switch flow, tick 0/1ns/1us/1s/1h, touch, delete an output, build with no fault / short-write error / crash at byte n}}; after every build a clean build of the same sources and settings into an empty directory. Non-trivial = the history contains a successful build after a change to the parser's inputs; distinct = distinct operation sequence."),
+        rule: format!("history i of stream VERIF_SEED: <= {max_ops} operations from {{edit grammar (9 valid, 4 invalid variants, with/without %grmtools header), edit lexer (5 valid, 3 invalid), set a parser option ({} keys), set a lexer option ({} keys: every CTLexerBuilder setter except lexerkind), switch flow, tick 0/1ns/1us/1s/1h, touch, delete an output, build with no fault / short-write error / crash at byte n}}; after every build a clean build of the same sources and settings into an empty directory. Non-trivial = the history contains a successful build after a change to the parser's inputs; distinct = distinct operation sequence.", POPT_POOL.len(), LOPT_POOL.len()),
         samples: t.samples.clone(),
         extra,
         assumptions: vec!["mtimes are the simulator's clock; backward or coarse file-system clocks are not modelled".into(), "one build per child process (the builders refuse a second build to the same path in one process)".into(), "byte equality is unmasked: all children share one lrpar/lrlex build and hence one embedded build timestamp".into()],
